@@ -324,7 +324,10 @@ class LenClass:
                 if self._column_shape(n.args[1:]):
                     return self.of(n.args[0])       # x.reshape(-1, 1): one row per element, the population is kept
                 # reshape(rows, ...) with rows the length of a per-event array restores that population
-                c = self.count_of(n.args[1])
+                first = n.args[1]
+                if first.op in ("Tuple", "List") and first.args:
+                    first = first.args[0]           # reshape((rows, cols))
+                c = self.count_of(first)
                 if c is not None and is_def(c):
                     return c
                 return TOP
@@ -334,8 +337,19 @@ class LenClass:
                 return self._transposed(self.of(n.args[0]))
             if name in ("transform_to", "separation"):
                 return self._joinall(n.args, n, "astropy acts element-wise on time arrays")
-            if name in ("sum", "mean", "min", "max", "std", "var", "any", "all", "item"):
-                return S if len(n.args) == 1 else TOP
+            if name in ("sum", "mean", "min", "max", "std", "var", "any", "all", "item", "argmin", "argmax", "prod"):
+                if len(n.args) == 1:
+                    return S
+                # x.argmin(axis=1): a row-wise reduction keeps the event axis
+                npos, kwn = n.attr[1], n.attr[2]
+                ax = None
+                if "axis" in kwn:
+                    ax = n.args[1 + npos + list(kwn).index("axis")]
+                elif npos >= 1:
+                    ax = n.args[1]
+                if ax is not None and ax.op == "Const" and isinstance(ax.attr, int) and ax.attr != 0 and len(n.args) == 2:
+                    return self.of(n.args[0])
+                return TOP
             return TOP
         if op == "Call":
             return self._call(n)
